@@ -87,6 +87,23 @@ def check_property(prop, tier, seed, replay=None):
                 "trusted_base": TRUSTED_BASE + ([prop.modelled] if prop.modelled else [])}
     violations = []    # (clause, desc, case, impl_trace, model_trace)
 
+    # 0. fingerprints of the anchored source files (which code this run was about)
+    try:
+        for line in open(os.path.join(VERIF, "properties.jsonl")):
+            rec = json.loads(line)
+            if rec["id"] == prop.id:
+                fpr = {}
+                for f in rec["anchors"]["files"]:
+                    path = os.path.join(REPO, f)
+                    if os.path.exists(path):
+                        fpr[f] = hashlib.sha256(open(path, "rb").read()).hexdigest()[:12]
+                coverage["anchored_source_fingerprints"] = fpr
+                head = sh(["git", "-C", REPO, "rev-parse", "--short", "HEAD"], check=False).stdout.strip()
+                dirty = sh(["git", "-C", REPO, "status", "--porcelain", "--untracked-files=no"], check=False).stdout.strip()
+                coverage["repo_head"] = head + ("+dirty" if dirty else "")
+    except Exception:
+        pass
+
     # 1. translators
     try:
         fp = run_translators(prop.translators)
